@@ -801,6 +801,10 @@ class FDI:
                 self.cut_rows += 1
             if len(self.rows) > self.max_rows:
                 raise Undecided(f"more than {self.max_rows} rows")
+        STATS['fdi_runs'] += 1
+        STATS['table_rows_enumerated'] += len(self.rows)
+        STATS['rows_cut_at_unrolling_bound'] += self.cut_rows
+        STATS['rows_undecided'] += sum(1 for r in self.rows if r.undecided)
         return self.rows
 
     def make_input(self, st, name, ty):
@@ -1157,6 +1161,7 @@ class FDI:
 
 
 CONSUMED = object()
+STATS = {'fdi_runs': 0, 'table_rows_enumerated': 0, 'rows_cut_at_unrolling_bound': 0, 'rows_undecided': 0}
 # reporting helpers: their inside (error channel selection, formatting) is never part of a decision under analysis
 DEFAULT_NO_INLINE = [r'^util::eprint_(err|msg)$']
 
